@@ -3,3 +3,5 @@ A = alloc_common.pairs(); B = aligned_common.pairs()
 PAIRS = [A[k] for k in ("count_size_overflow", "calloc", "mallocn", "reallocn", "recalloc")] + [v for k, v in B.items() if k.startswith("generic_") or k == "aligned_entry"]
 import posix_common
 PAIRS += posix_common.pairs()
+import page_common as _pc
+PAIRS += _pc.malloc_generic_pairs()      # generic path: retry once after a forced collect, NULL only when the page search failed twice; periodic drain of delayed frees
